@@ -80,6 +80,18 @@ pub fn net_req(n: Network) -> NetworkInRequest {
     }
 }
 
+/// The request-side network type spells every network twice (`Mainnet` / `mainnet`, ...).
+pub fn net_req_spelled(n: Network, lower: bool) -> NetworkInRequest {
+    match (n, lower) {
+        (Network::Mainnet, false) => NetworkInRequest::Mainnet,
+        (Network::Testnet, false) => NetworkInRequest::Testnet,
+        (Network::Regtest, false) => NetworkInRequest::Regtest,
+        (Network::Mainnet, true) => NetworkInRequest::mainnet,
+        (Network::Testnet, true) => NetworkInRequest::testnet,
+        (Network::Regtest, true) => NetworkInRequest::regtest,
+    }
+}
+
 /// Outcome of one ingestion call.
 #[derive(Clone, Copy, Debug, PartialEq, Eq, serde::Serialize)]
 pub enum Ingested {
